@@ -420,10 +420,13 @@ func runC09(c *core.Ctx) {
 // notice a file that ends early on a block boundary, carries extra bytes inside its last block, or - for a
 // size that is a multiple of the block size - has no block at all at the position where its end is read.
 // (a) Read decides what to do from its position relative to the signed size: the validation and the read of
-//     the wrapped reader are dominated by a branch on a value computed from both the offset and the signed size;
+//
+//	the wrapped reader are dominated by a branch on a value computed from both the offset and the signed size;
+//
 // (b) the buffer handed to the wrapped reader is cut at a bound computed from the signed size;
 // (c) in validateBlock the error of the read that fills the block buffer is returned only when it is not an
-//     end of file: a block that comes back short is judged (and fails), it does not end the stream cleanly.
+//
+//	end of file: a block that comes back short is judged (and fails), it does not end the stream cleanly.
 func ruleSignedLength(c *core.Ctx, read, vb *ssa.Function, innerRead, isVB ipred) {
 	rname := core.FnName(read)
 	retSize := map[*ssa.Function]bool{}
